@@ -571,7 +571,7 @@ func VxSymPosFreeL(tag string, localTo func(s *VxState) VxState) (*Position, VxS
 		p.psqEndValue[c] = Value(vxI16(vxName(tag+"psqEnd", c)))
 	}
 	p.gamePhase = vxInt(tag + "gamePhase")
-	vxAssume(p.gamePhase >= 0 && p.gamePhase <= 1000)
+	vxAssume(p.gamePhase >= 0 && p.gamePhase <= GamePhaseMax)
 	p.zobristKey = Key(vxU64(tag + "zobristKey"))
 	p.historyCounter = vxInt(tag + "historyCounter")
 	vxAssume(p.historyCounter >= 0 && p.historyCounter <= maxHistory-2)
@@ -686,4 +686,76 @@ func VxPosPhaseStm(phase int, stm Color) *Position {
 	p.gamePhase = phase
 	p.nextPlayer = stm
 	return p
+}
+
+// ---- evaluator support (C15) ----
+
+func vxBswap(b Bitboard) Bitboard {
+	b = (b&0x00000000FFFFFFFF)<<32 | (b&0xFFFFFFFF00000000)>>32
+	b = (b&0x0000FFFF0000FFFF)<<16 | (b&0xFFFF0000FFFF0000)>>16
+	b = (b&0x00FF00FF00FF00FF)<<8 | (b&0xFF00FF00FF00FF00)>>8
+	return b
+}
+
+func vxFlipPiece(pc Piece) Piece {
+	if pc == PieceNone {
+		return pc
+	}
+	return pc ^ 8
+}
+
+// VxSymPosEval: a position as the evaluator sees it: symbolic well-formed board, bitboards and king
+// squares consistent with it, additive totals arbitrary within the range positions with <= 16 men
+// per side can reach (so that no int16 total overflows), no history.
+func VxSymPosEval(tag string) *Position {
+	p, _ := VxSymPosFreeL(tag, nil)
+	for c := 0; c < 2; c++ {
+		vxAssume(p.material[c] >= 0 && p.material[c] <= 15000 && p.materialNonPawn[c] >= 0 && p.materialNonPawn[c] <= p.material[c])
+		vxAssume(p.psqMidValue[c] >= -3000 && p.psqMidValue[c] <= 3000 && p.psqEndValue[c] >= -3000 && p.psqEndValue[c] <= 3000)
+	}
+	return p
+}
+
+// VxMirror: the colour-mirrored position (board flipped vertically, colours, castling rights and
+// side to move swapped). The additive totals swap sides: the per-piece value tables are
+// colour-symmetric (data obligation VH_C15_tables_symmetric in package types).
+func (p *Position) VxMirror() *Position {
+	m := &Position{}
+	for i := 0; i < 64; i++ {
+		m.board[i] = vxFlipPiece(p.board[i^56])
+	}
+	for c := 0; c < 2; c++ {
+		o := 1 - c
+		for pt := 0; pt < 7; pt++ {
+			m.piecesBb[c][pt] = vxBswap(p.piecesBb[o][pt])
+		}
+		m.occupiedBb[c] = vxBswap(p.occupiedBb[o])
+		m.kingSquare[c] = p.kingSquare[o] ^ 56
+		m.material[c] = p.material[o]
+		m.materialNonPawn[c] = p.materialNonPawn[o]
+		m.psqMidValue[c] = p.psqMidValue[o]
+		m.psqEndValue[c] = p.psqEndValue[o]
+	}
+	m.nextPlayer = p.nextPlayer.Flip()
+	m.castlingRights = (p.castlingRights&3)<<2 | (p.castlingRights>>2)&3
+	m.enPassantSquare = p.enPassantSquare
+	if p.enPassantSquare != SqNone {
+		m.enPassantSquare = p.enPassantSquare ^ 56
+	}
+	m.halfMoveClock = p.halfMoveClock
+	m.nextHalfMoveNumber = p.nextHalfMoveNumber
+	m.gamePhase = p.gamePhase
+	m.zobristKey = p.zobristKey ^ 0x5555
+	m.hasCheckFlag = p.hasCheckFlag
+	return m
+}
+
+// VxSameFields: every field of two positions agrees (history excluded; used for "does not modify").
+func (p *Position) VxSameFields(q *Position) bool {
+	return p.board == q.board && p.piecesBb == q.piecesBb && p.occupiedBb == q.occupiedBb && p.kingSquare == q.kingSquare &&
+		p.material == q.material && p.materialNonPawn == q.materialNonPawn && p.psqMidValue == q.psqMidValue &&
+		p.psqEndValue == q.psqEndValue && p.gamePhase == q.gamePhase && p.zobristKey == q.zobristKey &&
+		p.nextPlayer == q.nextPlayer && p.castlingRights == q.castlingRights && p.enPassantSquare == q.enPassantSquare &&
+		p.halfMoveClock == q.halfMoveClock && p.nextHalfMoveNumber == q.nextHalfMoveNumber &&
+		p.historyCounter == q.historyCounter && p.hasCheckFlag == q.hasCheckFlag
 }
